@@ -7,11 +7,33 @@ recorded structure, and the statement's own oracle (a tree rebuilt from
 get_path() + the same sliced / projected indices reports the same) is required.
 """
 from . import _hist
+from .. import mc, tla
 
 LEVEL = "model_checking"
 
 
+def design_level(run):
+    """TreeCache.tla: the implementation-shaped model of the in-place updates (remove_ind loop over the
+    insertion order, restore_ind, re-creation with computed values, annealing rotations with supplied
+    legs / cost / size).  The model of the code AFTER the F4 repair keeps CacheCoherent / TotalsCoherent;
+    the model of the code before it is refuted (negative instance)."""
+    quick = run.tier == "quick"
+    run.extra["mc_instances"] = {}
+    for nm in (["MC_TreeCache_repaired_quick"] if quick else ["MC_TreeCache_repaired", "MC_Tree_A"]) + (["MC_Tree_Bq"] if quick else ["MC_Tree_B"]):
+        res = mc.run_mc(nm, workers=8, module="MC_TreeCache" if "TreeCache" in nm else "MC_Tree")
+        run.tlc(res)
+        run.extra["mc_instances"][nm] = {"states": res.distinct, "exhaustive": True}
+    try:
+        mc.run_mc("MC_TreeCache_unrepaired", workers=2, module="MC_TreeCache")
+        raise tla.MachineryError("negative instance MC_TreeCache_unrepaired was not refuted (vacuity)")
+    except tla.MachineryError as e:
+        if "CacheCoherent" not in str(e) and "TotalsCoherent" not in str(e):
+            raise
+        run.extra["mc_instances"]["MC_TreeCache_unrepaired (negative)"] = {"violates": "CacheCoherent", "as_expected": True}
+
+
 def run(run):
+    design_level(run)
     _hist.run_histories(run, "figures", f"c04_{run.tier}")
     run.cov["rule"] = ("histories = TLC behaviours of spec/Tree.tla concretised to the public operations; distinct by "
                        "(network, initial tree, concrete operation sequence); after every step every reported figure is "
